@@ -27,7 +27,7 @@ func init() {
 			"R1": "in the connection loop the read message flows by a plain call to the dispatch chain; no cycle through the read avoids the dispatch call except via the read-error exit",
 			"R2": "no `go` whose target reaches a handler invocation in any function of the dispatch closure",
 			"R3": "each connection constructor site: exactly one `go loop()` on the success path; loop never called synchronously",
-			"R4": "no exclusive sync.Mutex/RWMutex.Lock may be held at a handler invocation (or at a call leading to one) on the dispatch chain",
+			"R4": "no mutex that the library also write-locks may be held — exclusively or shared — at a handler invocation (or at a call leading to one) on the dispatch chain",
 			"R5": "no blocking channel operation / wait in any function of the dispatch closure",
 		},
 		MinInstances: map[string]int{"R1": 1, "R2": 1, "R3": 1, "R4": 1, "R5": 1},
@@ -163,6 +163,15 @@ func runC08(c *Ctx) {
 
 	// ---- dispatch closure ----
 	roots := append([]*ssa.Function{}, dispatchCallees...)
+	// handler-typed function values created by the library (closures wrapping application handlers, built-in
+	// handlers) are invoked dynamically by the chain: they belong to it
+	if len(roots) > 0 {
+		for _, hf := range c.P.LibraryFuncs() {
+			if hf.Synthetic == "" && hf.Signature.Recv() == nil && isHandlerSig(types.NewSignatureType(nil, nil, nil, hf.Signature.Params(), hf.Signature.Results(), false)) {
+				roots = append(roots, hf)
+			}
+		}
+	}
 	closure := c.reach(roots, false, true, true)
 	// keep library functions only
 	for f := range closure {
@@ -360,8 +369,22 @@ func runC08(c *Ctx) {
 					excl = append(excl, h.path)
 				}
 			}
+			// a shared (read) lock is just as bad when the same mutex is write-locked anywhere in the library:
+			// sync.RWMutex makes new readers wait behind a queued writer, so one blocked handler plus one
+			// registration stalls every other connection's dispatch
+			var sharedW []string
+			for _, h := range held {
+				if h.exclusive {
+					continue
+				}
+				if mf := mutexField(h.in); mf != "" && c.writeLockedSomewhere(mf) != "" {
+					sharedW = append(sharedW, mf+" (write-locked in "+c.writeLockedSomewhere(mf)+")")
+				}
+			}
 			if len(excl) > 0 {
 				r.Fail("R4", key, c.pos(ci), fmt.Sprintf("exclusive lock %v may be held while a handler runs: a handler blocking on one connection stalls dispatch on all others", excl))
+			} else if len(sharedW) > 0 {
+				r.Fail("R4", key, c.pos(ci), fmt.Sprintf("the read lock of %v is held while a handler runs: with a handler blocked on one connection, the next writer of that mutex waits for it and every other connection's dispatch queues behind the writer", sharedW))
 			} else {
 				r.Ok("R4", key, c.pos(ci), fmt.Sprintf("no exclusive lock may be held here (held: %d read locks)", len(held)))
 			}
@@ -490,4 +513,33 @@ func errorResult(call *ssa.Call) ssa.Value {
 		}
 	}
 	return nil
+}
+
+// mutexField: "Struct.field" of the mutex a lock operation acts on ("" when it is not a struct field).
+func mutexField(ci ssa.CallInstruction) string {
+	args := ci.Common().Args
+	if len(args) == 0 {
+		return ""
+	}
+	fa, ok := args[0].(*ssa.FieldAddr)
+	if !ok {
+		return ""
+	}
+	tn, fld, ok := fieldAddrName(fa)
+	if !ok || tn == "" {
+		return ""
+	}
+	return tn + "." + fld
+}
+
+// writeLockedSomewhere: a library function that takes the exclusive lock of the mutex field mf ("" if none).
+func (c *Ctx) writeLockedSomewhere(mf string) string {
+	for _, f := range c.P.LibraryFuncs() {
+		for _, op := range lockOps(f) {
+			if op.acquire && op.exclusive && mutexField(op.in) == mf {
+				return fname(f)
+			}
+		}
+	}
+	return ""
 }
